@@ -905,3 +905,45 @@ def every_item(ctx, rr):
                                     '%s can finish a round of its batch loop without submitting the item to `%s`: the page (source of an empty batch entry, already existing '
                                     'inner node, ...) is never registered / flagged' % (u.qual, ast.unparse(c)[:50]), stmt='%s: item skipped before %s' % (u.qual, ast.unparse(c.args[0])[:30] if c.args else '?')))
     rr.require(n, 3, '__add_page sites in batch loops')
+
+
+# ------------------------------------------------------------------------------------------------ R-RETURN-SHAPE
+@rule('R-RETURN-SHAPE')
+def return_shape(ctx, rr):
+    """a function whose callers unpack its result returns a tuple of the same arity on every path: `return None` next to
+    `return node, history` fails (TypeError) exactly on the rare path that takes it"""
+    P = ctx.P
+    n = 0
+    for u in P.units:
+        if u.is_gen:
+            continue
+        rets = list(P.own(u, ast.Return))
+        ar = {}
+        for r in rets:
+            v = r.value
+            if isinstance(v, ast.Tuple):
+                ar.setdefault(len(v.elts), []).append(r)
+            elif v is None or (isinstance(v, ast.Constant)):
+                ar.setdefault('scalar', []).append(r)
+        tuples = [k for k in ar if k != 'scalar']
+        if not tuples:
+            continue
+        n += 1
+        # is the result unpacked by some caller?
+        unpacked = False
+        for cu in P.units:
+            for a in P.own(cu, (ast.Assign, ast.For)):
+                val = a.value if isinstance(a, ast.Assign) else a.iter
+                tg = a.targets[0] if isinstance(a, ast.Assign) else a.target
+                if isinstance(val, ast.Call) and u in P.targets(val) and isinstance(tg, (ast.Tuple, ast.List)):
+                    unpacked = True
+        bad = []
+        if len(tuples) > 1:
+            bad = ar[sorted(tuples)[-1]]
+        elif 'scalar' in ar and unpacked:
+            bad = ar['scalar']
+        rr.ob(ctx.where(u), '%s returns %s-tuples on every path' % (u.qual, tuples[0]), ok=not bad)
+        for r in bad:
+            rr.fail(ctx.finding('R-RETURN-SHAPE', u, r, '%s returns `%s` on this path but a %s-tuple elsewhere, and its callers unpack the result: the path raises TypeError instead of '
+                                'reporting its outcome' % (u.qual, ast.unparse(r)[:40], tuples[0])))
+    rr.require(n, 5, 'functions returning tuples')
